@@ -929,6 +929,27 @@ func init() {
 			plain[i] = i
 		}
 		meta.IndexMap = append(plain, didx...)
+		// arrays whose items are a composition, against Model/ItemComp.v (meta.Cases: after all the others)
+		if replay == "" || strings.Contains(replay, "items") {
+			var ics []C05Items
+			if replay != "" {
+				ics = loadReplayCases[C05Items](replay)
+			} else {
+				ics = c05ItemsCases(NewRng(seed^0x17e35), n/3)
+			}
+			var iterms []string
+			for i := range ics {
+				io := runC05Items(&ics[i])
+				meta.Cases = append(meta.Cases, map[string]any{"input": map[string]any{"composition_items": ics[i]}, "go": io})
+				meta.IndexMap = append(meta.IndexMap, len(meta.Cases)-1)
+				iterms = append(iterms, c05ItemsCoq(&ics[i], &io))
+				meta.Histogram[fmt.Sprintf("composition items err=%d", io.Err)]++
+			}
+			f3, off3 := writeCasesAt(outDir, "items", "From KV Require Import Model.Base Model.Json Model.Schema Model.ParamCodec Model.ItemComp Exec.C05Exec Exec.C05ItemExec.", "itemcase", "judge_item", iterms, meta.Shard, len(terms)+len(dterms))
+			meta.Files = append(meta.Files, f3...)
+			meta.Offsets = append(meta.Offsets, off3...)
+			meta.Histogram["composition items model comparisons"] = len(iterms)
+		}
 		_ = idx
 		writeMeta(outDir, meta)
 		fmt.Fprintf(os.Stderr, "C05: %d cases\n", len(cases))
